@@ -340,6 +340,9 @@ func Glob(input, match string) bool {
 		return false
 	}
 
+	// Trim the prefix, so it cannot also be matched by later parts.
+	input = input[len(parts[0]):]
+
 	// Check middle section.
 	for i := 1; i < last; i++ {
 		if !strings.Contains(input, parts[i]) {
